@@ -1316,4 +1316,70 @@ theorem app_full_otherwise (pm : List Path) :
     bindMode [] (some pm) = none ∧ bindMode [.part] none = none ∧ validateMode [] (some pm) = none := by
   refine ⟨rfl, rfl, rfl⟩
 
+/-! ## 11. model ⊨ oracle for the remaining driver branches: interface-only mode and a custom validator's error -/
+
+/-- **interface strategy alone / custom validator's error, model ⊨ oracle**: what a `Validate()` method or a custom
+    validator returned (`errs`, which carry no value to hide), cut and sorted by `coerceToValidationErrors`, passes the
+    oracle the driver runs (`want` = those errors) — for every list and option set -/
+theorem errorsOK_model_interface (errs : List FieldErr) (o : Opts) (single : Bool)
+    (hh : ∀ e ∈ errs, e.hidden = false → e.path ∉ o.redacted) :
+    errorsOK (errs.map fun e => (⟨e.path, e.code, []⟩ : Want)) o single (coerce errs o) = true := by
+  have hperm := coerce_fields errs o
+  have hsub : ∀ e ∈ fieldsOf (coerce errs o), e ∈ errs := by
+    intro e he
+    have := hperm.mem_iff.mp he
+    split at this
+    · exact List.mem_of_mem_take this
+    · exact this
+  apply lemma_errorsOK_of
+  · intro e he
+    have hm := hsub e he
+    refine ⟨⟨e.path, e.code, []⟩, List.mem_map.mpr ⟨e, hm, rfl⟩, rfl, rfl, ?_⟩
+    intro hf
+    exact ⟨hh e hm hf, by simp⟩
+  · intro ht w hw
+    obtain ⟨e, he, rfl⟩ := List.mem_map.mp hw
+    rw [coerce_trunc] at ht
+    have hc : ¬ (o.maxErrors > 0 ∧ errs.length > o.maxErrors) := by simpa using ht
+    rw [if_neg hc] at hperm
+    exact ⟨e, hperm.mem_iff.mpr he, rfl, rfl⟩
+  · intro hm _
+    rw [hperm.length_eq]
+    by_cases hc : o.maxErrors > 0 ∧ errs.length > o.maxErrors
+    · rw [if_pos hc]; exact List.length_take_le _ _
+    · rw [if_neg hc]
+      have : ¬ errs.length > o.maxErrors := fun h => hc ⟨hm, h⟩
+      omega
+  · intro ht
+    rw [coerce_trunc] at ht
+    have hc : o.maxErrors > 0 ∧ errs.length > o.maxErrors := by simpa using ht
+    rw [hperm.length_eq, if_pos hc, List.length_take]
+    exact ⟨hc.1, by omega⟩
+  · intro r hr
+    unfold coerce at hr
+    cases errs with
+    | nil => simp at hr
+    | cons a rest =>
+      simp only [List.isEmpty_cons, Bool.false_eq_true, if_false] at hr
+      split at hr
+      · rename_i hc
+        cases hr
+        intro he
+        have := congrArg List.length he
+        rw [(sortErrs_perm _).length_eq, List.length_take] at this
+        simp only [List.length_cons, List.length_nil] at this
+        omega
+      · cases hr
+        intro he
+        have := congrArg List.length he
+        rw [(sortErrs_perm _).length_eq] at this
+        simp at this
+  · exact coerce_sorted errs o
+
+/-- the custom-validator branch and the interface-only branch of `Validate` reduce to it -/
+theorem errorsOK_model_custom (errs : List FieldErr) (runAll : Bool) (st : Strat) (a : Applic) (r : StratRes) (o : Opts)
+    (single : Bool) (hh : ∀ e ∈ errs, e.hidden = false → e.path ∉ o.redacted) :
+    errorsOK (errs.map fun e => (⟨e.path, e.code, []⟩ : Want)) o single (validateTop (some errs) runAll st a r o) = true :=
+  errorsOK_model_interface errs o single hh
+
 end Rivaas.C05
